@@ -3,7 +3,7 @@
 From Coq Require Import List Arith Bool NArith ZArith.
 From Verif.lib Require Import FinSet.
 From Verif.C04 Require Import Model Proofs ProofsMesh.
-From Verif.C03 Require Import Model Proofs Proofs2 Proofs7.
+From Verif.C03 Require Import Model Proofs Proofs2 Proofs7 Proofs9.
 From Verif.C04 Require Children.
 Import ListNotations.
 
@@ -171,3 +171,27 @@ Example ex_kron :
   sm_get Z 0%Z (kron2 Z Z.mul P4 P4 4%N) (N.of_nat (2 * 6 + 1)) (1 * 4 + 0)%N = 6%Z
   /\ length (kron2 Z Z.mul P4 P4 4%N) = 36.
 Proof. vm_compute. split; reflexivity. Qed.
+
+(* multi_kron_entry in two dimensions: both axes carry P4; entry ((2,1), (1,0)) = P4[2,1] * P4[1,0] = 6, and the
+   hypotheses cols_ok / the index boxes hold (evaluated) *)
+Definition pm2 (lv d : nat) : smat Z := match lv with O => P4 | _ => [] end.
+Example ex_multi_kron :
+  sm_get Z 0%Z (multi_kron Z 1%Z Z.mul pm2 0 0 [4; 4]) (ravel (rowdims Z pm2 0 0 2) [2; 1]) (ravel [4; 4] [1; 0]) = 6%Z
+  /\ kron_entry Z 0%Z 1%Z Z.mul pm2 0 0 [2; 1] [1; 0] = 6%Z
+  /\ rowdims Z pm2 0 0 2 = [6; 6]
+  /\ forallb (fun row => forallb (fun e => N.ltb (fst e) 4) row) P4 = true.
+Proof. vm_compute. repeat split; reflexivity. Qed.
+
+(* hstack_entry: two blocks of widths 4 and 2 *)
+Example ex_hstack :
+  hstack Z 2 [(sm_rows Z P4 [1; 2]%N, 4); ([[(1%N, 7%Z)]; []], 2)]
+  = [[(0%N, 2%Z); (1%N, 2%Z); (5%N, 7%Z)]; [(1%N, 3%Z); (2%N, 1%Z)]].
+Proof. vm_compute. reflexivity. Qed.
+
+(* representation_associative on st1 (n = 0): both sides are the two-scale coefficient 3 of fine function 2 in coarse function 1 *)
+Example ex_assoc :
+  repn Z 0%Z 1%Z Z.add Z.mul st1 pm1 1 0 [1] [2] = 3%Z
+  /\ sumf Z 0%Z Z.add (fun g => Z.mul (repn Z 0%Z 1%Z Z.add Z.mul st1 pm1 0 1 g [2]) (kron_entry Z 0%Z 1%Z Z.mul pm1 0 0 g [1]))
+           (tp_functions (msh st1 1)) = 3%Z
+  /\ In [1] (tp_functions (msh st1 0)) /\ In [2] (tp_functions (msh st1 1)).
+Proof. vm_compute. repeat split; auto 10. Qed.
